@@ -93,6 +93,70 @@ async def realise(ctx, sq, n, par, rnd, stall_events):
     await o.stop()
 
 
+def disk_hit_aborts(ctx, tree, store, conf, rnd):
+    d = 'cache_dir %s %%s 64%s\n' % (store, ' max-size=8000000' if store == 'rock' else ' 4 16')
+    sq = squidctl.Squid(ctx, tree, name='c08-' + store, clock=True, cache_mem='256 KB', conf_extra=conf + 'maximum_object_size_in_memory 4 KB\nmaximum_object_size 8 MB\n')
+    sq.conf_text = sq.conf_text.replace('http_access allow all', (d % os.path.join(sq.run, 'cd')) + 'http_access allow all')
+    open(sq.conf, 'w').write(sq.conf_text)
+    sq.init_dirs()
+    sq.start(wait=40)
+    n = 60 if ctx.thorough else 30
+    L = 1200000
+    clock = [0]
+
+    def quiesce():
+        for _ in range(4):
+            clock[0] += 400
+            sq.set_clock(clock[0])
+            time.sleep(0.35)
+        return nfds(sq)
+    try:
+        async def main():
+            rec = peers.Rec()
+
+            async def responder(q, oc):
+                v = int(q.target.rsplit('/', 1)[-1]) + 1
+                await oc.send(peers.response_head(200, 'OK', [('Content-Length', str(L)), ('Cache-Control', 'max-age=3600'), ('Date', peers.http_date())]) + peers.body_bytes(v, L))
+                return False
+            o = await peers.Origin(rec, responder).start()
+            urls = ['http://127.0.0.1:%d/c08d/%d' % (o.port, i) for i in range(3)]
+            for u in urls:
+                await peers.simple_get(rec, sq.port, u, vid='prime')
+                await peers.simple_get(rec, sq.port, u, vid='hit')        # a complete hit
+            await asyncio.sleep(0.3)
+            base = quiesce_async[0]()
+
+            async def one(i):
+                c = peers.Client(rec, sq.port)
+                try:
+                    await c.open()
+                    await c.send(peers.request_bytes('GET', urls[i % 3], [], vid='a%d' % i, host=urls[0].split('/')[2]))
+                    want = rnd.choice([1, 300, 5000, 70000, 400000, 900000])
+                    got = 0
+                    while got < want:
+                        dta = await asyncio.wait_for(c.reader.read(min(65536, want - got)), 5.0)
+                        if not dta:
+                            break
+                        got += len(dta)
+                    (c.reset if i % 2 else c.close)()
+                except (asyncio.TimeoutError, ConnectionError, OSError):
+                    try:
+                        c.close()
+                    except Exception:
+                        pass
+            await escen.gather_limited([one(i) for i in range(n)], limit=6)
+            await asyncio.sleep(0.3)
+            await o.stop()
+            return base
+        quiesce_async = [quiesce]
+        base = asyncio.run(main())
+        fds = quiesce()
+        alive = sq.alive()
+    finally:
+        sq.stop()
+    return {'phase': 'diskHitAborted/' + store, 'n': n, 'ev': [{'e': 'Baseline', 'fds': base, 'idleAllowed': 0, 'alive': True}, {'e': 'Quiescent', 'fds': fds, 'idleAllowed': 0, 'alive': bool(alive)}]}
+
+
 def run(ctx):
     tree = squidctl.ensure_binary(ctx)
     scens, res = escen.tlc_scenarios(ctx, os.path.join(SPEC, 'FdScen.tla'), os.path.join(SPEC, 'MC_FdScen.cfg'))
@@ -167,6 +231,13 @@ def run(ctx):
     finally:
         log_tail = sq.tail_log(15)
         sq.stop()
+    # hits read from a cache_dir and aborted by the client while the response is on its way (disk descriptors have no Comm
+    # timeout: whatever is left open stays open)
+    for store in ('aufs', 'ufs', 'rock'):
+        h = disk_hit_aborts(ctx, tree, store, conf, random.Random(ctx.seed * 17 + len(store)))
+        if h:
+            hists.append(h)
+            ctx.log('phase %-17s %3d transactions -> %d descriptors (baseline %d) alive=%s' % (h['phase'], h['n'], h['ev'][1]['fds'], h['ev'][0]['fds'], h['ev'][1]['alive']))
     rej = escen.validate(ctx, os.path.join(SPEC, 'Trace_FdTable.tla'), os.path.join(SPEC, 'Trace_FdTable.cfg'), [{'ev': h['ev']} for h in hists], 'fd')
     for i in rej[:5]:
         h = hists[i]
@@ -179,5 +250,5 @@ def run(ctx):
         ctx.sample(h)
     ctx.cov['rule'] = ('classes = FdScen.tla (transaction phase x aborter client close/reset, server close/reset, stall x cache x method x reply framing); all classes of one phase run '
                        'concurrently, then both peers go silent, Squid\'s clock is advanced through the hook so that every timeout expires, and /proc/<pid>/fd is counted; '
-                       'TLC validates each group history against FdTable.tla (descriptors back at the baseline, squid alive).')
+                       'TLC validates each group history against FdTable.tla (descriptors back at the baseline, squid alive). Plus, per store (aufs, ufs, rock): hits on 1.2 MB objects read from the cache_dir and aborted by the client (close / reset) at random offsets.')
     ctx.assumptions += ['timeouts are triggered by moving Squid\'s clock (hook), not by waiting', 'a leak is attributed to a phase group, not to a single class (replay narrows it)']
